@@ -71,6 +71,11 @@ CHECKS = {
    "generate go, generate typescript and debug must return or stop with a diagnostic on every text of the explored space; termination is decided deterministically by fuel (10M loop iterations, >= 50x the largest terminating run), not by wall clock.",
    "Trusted: the overlay rewriter instruments every for/range loop and function entry of the repository packages; the fuel margin. Not all byte strings: the fragment alphabet, prefixes and single edits.",
    "3/C13"),
+ "C16": ("exploration",
+   "bounded exhaustive enumeration of output shapes: every printable punctuation character as literal token (declared, undeclared, with precedence), awkward-but-legal names, tag mixes, explicit numbers, tokens introduced only by %left, plus a fixed-stride selection of the bounded grammar classes, each generated in all five variants with the minimal prologue/epilogue the statement allows; Go files compiled with the Go toolchain, TypeScript type-erased and loaded under Node",
+   "Whenever yaccgo generates a file without reporting an error the file must compile (Go: go build of all packages) or load (TypeScript under Node after type erasure).",
+   "Trusted: Go toolchain, Node 20, the type eraser. TypeScript type correctness is not checked (no tsc in the image). Domain: token names that are not reserved/predeclared words nor skeleton names.",
+   "3/C16"),
 }
 
 PENDING = {}
